@@ -475,7 +475,7 @@ func main() {
 		sc.MaxExecs = evid.Pick(run, 1500, 60000)
 		scs = append(scs, sc)
 	}
-	for _, sc := range extraScenarios(pb) {
+	for _, sc := range append(extraScenarios(pb), c01.CloseDuringHandlerScenario(pb)) {
 		sc.MaxExecs = evid.Pick(run, 4000, 100000)
 		scs = append(scs, sc)
 	}
